@@ -13,11 +13,18 @@ CONSTANTS N, Rad, Bug
 Lo == -Rad
 Hi == Rad
 
-VARIABLES a, b
+(* TLC computes (and checks) initial states with one thread: the first box is
+   chosen by Init, the second by the only action, so that the pairs are
+   spread over all workers.  Laws about one box are checked in the initial
+   states (ph = 0), laws about a pair in their successors (ph = 1). *)
+VARIABLES a, b, ph
 Coord == [1..N -> Lo..Hi]
-Init == a \in [pos : Coord, max : Coord] /\ b \in [pos : Coord, max : Coord]
-Next == UNCHANGED <<a, b>>
-Spec == Init /\ [][Next]_<<a, b>>
+Boxes == [pos : Coord, max : Coord]
+Init == a \in Boxes /\ b = a /\ ph = 0
+Next == ph = 0 /\ ph' = 1 /\ b' \in Boxes /\ a' = a
+Spec == Init /\ [][Next]_<<a, b, ph>>
+One == ph = 0
+Two == ph = 1
 
 Points == [1..N -> (Lo - 1)..(Hi + 1)]
 Amounts == [1..N -> 0..2]
@@ -45,28 +52,28 @@ tST(x, v) == IF Bug = 10 THEN Box(Minus(x.pos, v), x.max) ELSE Stretch(x, v)
 tCE(x) == IF Bug = 11 THEN [i \in 1..N |-> x.pos[i] + (x.max[i] - x.pos[i] + 1) \div 2] ELSE Center(x)
 tID(a1, a2, b1, b2) == IF Bug = 12 THEN {Max2(b1 - a2, a1 - b2) + 1} ELSE IntervalDistances(a1, a2, b1, b2)
 
-PtsLaw ==
+PtsLaw == One =>
   /\ tNE(a) <=> Pts(a) # {}
   /\ NonEmpty(a) => (a = BoundingBox(Pts(a)) /\ Cardinality(Pts(a)) = ProdTo(Size(a), N))
-ContainsPointLaw == \A p \in Points : tCP(a, p) <=> SContainsPoint(a, p)
-IntersectsLaw == (NonEmpty(a) /\ NonEmpty(b)) => (tIS(a, b) <=> SIntersects(a, b))
-IntersectionLaw == SIsIntersection(tIN(a, b), a, b)
-ContainsLaw == NonEmpty(b) => (tCO(a, b) <=> SContains(a, b))
+ContainsPointLaw == One => \A p \in Points : tCP(a, p) <=> SContainsPoint(a, p)
+IntersectsLaw == (Two /\ NonEmpty(a) /\ NonEmpty(b)) => (tIS(a, b) <=> SIntersects(a, b))
+IntersectionLaw == Two => SIsIntersection(tIN(a, b), a, b)
+ContainsLaw == (Two /\ NonEmpty(b)) => (tCO(a, b) <=> SContains(a, b))
 ExtendLaw ==
-  (NonEmpty(a) /\ NonEmpty(b)) =>
+  (Two /\ NonEmpty(a) /\ NonEmpty(b)) =>
     /\ tEX(a, b) = SExtend(a, b)
     /\ Pts(a) \cup Pts(b) \subseteq Pts(tEX(a, b))
 ExtendPointLaw ==
-  NonEmpty(a) => \A p \in Points :
+  (One /\ NonEmpty(a)) => \A p \in Points :
     /\ p \in Pts(a) => tEP(a, p) = a
     /\ Pts(a) \subseteq Pts(tEP(a, p))
     /\ \A i \in 1..N : tEP(a, p).pos[i] <= p[i] /\ p[i] <= tEP(a, p).max[i]
     /\ tEP(a, p) = FExtend(a, Box(p, p))
 CornerLaw ==
-  NonEmpty(a) =>
+  (One /\ NonEmpty(a)) =>
     /\ Cardinality(tCN(a)) = 2 ^ N
     /\ BoundingBox({[i \in 1..N |-> IF c[i] = a.max[i] THEN c[i] - 1 ELSE c[i]] : c \in tCN(a)}) = a
-ShrinkStretchLaw ==
+ShrinkStretchLaw == One =>
   \A v \in Amounts :
     /\ Pts(tSH(a, v)) = {p \in Pts(a) : Minus(p, v) \in Pts(a) /\ Plus(p, v) \in Pts(a)}
     /\ NonEmpty(a) => Pts(tST(a, v)) = {Plus(p, d) : p \in Pts(a), d \in [1..N -> -2..2]} \cap
@@ -75,13 +82,13 @@ ShrinkStretchLaw ==
                         (\A i \in 1..N : AbsI(d[i]) <= v[i]) => Plus(p, d) \in Pts(tST(a, v))
     /\ tSH(tST(a, v), v) = a
 CenterLaw ==
-  NonEmpty(a) =>
+  (One /\ NonEmpty(a)) =>
     /\ tCE(a) \in Pts(a)
     /\ \A i \in 1..N : LET below == tCE(a)[i] - a.pos[i]
                            above == a.max[i] - 1 - tCE(a)[i]
                        IN below - above \in {0, 1}
 DistanceLaw ==
-  (NonEmpty(a) /\ NonEmpty(b)) => \A i \in 1..N :
+  (Two /\ NonEmpty(a) /\ NonEmpty(b)) => \A i \in 1..N :
     LET d == tID(a.pos[i], a.max[i], b.pos[i], b.max[i])
         A == a.pos[i]..(a.max[i] - 1)
         B == b.pos[i]..(b.max[i] - 1)
